@@ -175,6 +175,50 @@ theorem operands_instruction_line (ws1 n wsA : Str) (o : Opd) (more : List (Str 
   · simp [comment]
   · simp only [hcom]; simp
 
+/-- the same behind a label (glued to the colon or not) -/
+theorem labelled_operands_instruction_line (l ws1 n wsA : Str) (o : Opd) (more : List (Str × Str × Opd)) (ws2 c : Str)
+    (hl : isName l) (hws1 : blanks ws1) (hn : isName n) (hwsA : blanks wsA) (hA : wsA ≠ []) (hg : o.ok) (hm : opdsOk more)
+    (hws2 : blanks ws2) (hc : lineEnd c) :
+    line (l ++ ':' :: (ws1 ++ (n ++ (wsA ++ (o.text ++ (opdTail more ++ (ws2 ++ c))))))) =
+      .ok (.codeLine (some (lower l)) (opOfWord (lower n)) (o.val :: more.map (fun x => x.2.2.val))) := by
+  obtain ⟨w, ws, rfl⟩ : ∃ w ws, wsA = w :: ws := by
+    cases wsA with
+    | nil => exact absurd rfl hA
+    | cons w ws => exact ⟨w, ws, rfl⟩
+  have hw : isSpace w = true := hwsA w (by simp)
+  have hwi : isIdentChar w = false ∧ w ≠ ':' := by
+    simp only [isSpace, Bool.or_eq_true, beq_iff_eq] at hw
+    rcases hw with rfl | rfl <;> decide
+  have hol := opList_opds o hg more hm ws2 c hws2 hc
+  have hsr := hg.2 (opdTail more ++ (ws2 ++ c))
+  generalize hR : o.text ++ (opdTail more ++ (ws2 ++ c)) = R at hol hsr ⊢
+  have hth : ∀ y, ((w :: ws) ++ R).head? = some y → isIdentChar y = false := by
+    intro y hy; simp at hy; subst hy; exact hwi.1
+  have hid : identText (n ++ ((w :: ws) ++ R)) = some (n, (w :: ws) ++ R) := identText_name n _ hn hth
+  have hidl : identText (l ++ ':' :: (ws1 ++ (n ++ ((w :: ws) ++ R)))) = some (l, ':' :: (ws1 ++ (n ++ ((w :: ws) ++ R)))) :=
+    identText_name l _ hl (by intro y hy; simp at hy; subst hy; decide)
+  have hopt : optLabel (l ++ ':' :: (ws1 ++ (n ++ ((w :: ws) ++ R)))) = (some (lower l), ws1 ++ (n ++ ((w :: ws) ++ R))) := by
+    simp only [optLabel, label, hidl]
+  have hsk : skipSpace (ws1 ++ (n ++ ((w :: ws) ++ R))) = n ++ ((w :: ws) ++ R) := by
+    rw [space_absorbs ws1 _ hws1, skip_name n _ hn]
+  have hop := operation_name n ((w :: ws) ++ R) hn hth
+  have hsA : skipSpace ((w :: ws) ++ R) = R := by
+    rw [space_absorbs (w :: ws) _ hwsA]; exact hsr
+  have hst := skip_tail ws2 c hws2 hc
+  unfold line
+  rw [hopt]
+  dsimp only
+  simp only [hsk]
+  rw [directive_name n _ hn]
+  simp only [hop]
+  simp only [hsA]
+  simp only [hol]
+  simp only [hst]
+  rcases hc with rfl | ⟨_, hcom⟩
+  · simp [comment]
+  · simp only [hcom]; simp
+
+
 /-! #### the operands -/
 
 /-- registers and numbers -/
